@@ -246,6 +246,9 @@ def reseed(ctx: Context, cls_q: str, attrs: list[str]) -> None:
                   f"{a} is not reset when the sampler is re-seeded (hidden state survives a random_state reset)", srs, srs.node)
         for f, s in hits:
             v = s.value  # type: ignore[union-attr]
+            if isinstance(v, ast.Name):
+                from ..poly import single_assignment_env
+                v = single_assignment_env(f.node).get(v.id, v)  # the draw may be held in a local first
             from_gen = isinstance(v, ast.Call) and isinstance(v.func, ast.Attribute) and src(v.func.value) == "self.random_generator" and v.func.attr in ("integers", "random")
             ctx.check(from_gen and not isinstance(s, ast.AugAssign), "R2.reset-source", f"{cls.name}.{f.name}:{a}",
                       f"{a} is drawn from the sampler's own generator", f"{a} is reset to `{src(v)}` - not a fresh draw from the sampler's own generator", f, s)
